@@ -40,7 +40,8 @@ func c03(c *an.Check) {
 			return r == an.EQ && an.IsIntConst(y, 1) && an.LenOf(s, x, func(a ssa.Value) bool { return an.IsParam(a, 0) })
 		}),
 		an.CallTrue("key extension found", 0, an.R("crypto/tls", "", "extensionIDEqual")),
-		an.CallOK("x509 self-signature verifies", an.X("crypto/x509", "Certificate", "Verify")),
+		an.CallOK("x509 Verify ok (validity, critical extensions, usage — NOT the signature: the certificate is its own root)", an.X("crypto/x509", "Certificate", "Verify")),
+		an.CallOK("self-signature verifies (CheckSignature with the certificate's own key)", an.X("crypto/x509", "Certificate", "CheckSignature")),
 		an.CallOK("asn1.Unmarshal ok", an.X("encoding/asn1", "", "Unmarshal")),
 		an.CallOK("UnmarshalPublicKey ok", fnUnmarshalPublicKey),
 		an.CallOK("MarshalPKIXPublicKey ok", fnMarshalPKIX),
@@ -71,6 +72,28 @@ func c03(c *an.Check) {
 				ok, det = false, "signature operand does not come from the decoded extension"
 			}
 		}
+		// the self-signature check is made on the chain's certificate over its own TBS bytes and signature
+		okSelf, detSelf := false, "no CheckSignature call"
+		for _, cs := range an.Calls(pk, an.X("crypto/x509", "Certificate", "CheckSignature")) {
+			okSelf, detSelf = true, ""
+			recv := cs.Call.Args[0]
+			fieldOf := func(v ssa.Value, name string) bool {
+				u, isLoad := v.(*ssa.UnOp)
+				if !isLoad {
+					return false
+				}
+				fa, isFA := u.X.(*ssa.FieldAddr)
+				return isFA && an.FieldOfAddr(fa) != nil && an.FieldOfAddr(fa).Name() == name && fa.X == recv
+			}
+			if !fieldOf(cs.Call.Args[1], "SignatureAlgorithm") || !fieldOf(cs.Call.Args[2], "RawTBSCertificate") || !fieldOf(cs.Call.Args[3], "Signature") {
+				okSelf, detSelf = false, "CheckSignature is not applied to the certificate's own (SignatureAlgorithm, RawTBSCertificate, Signature)"
+			}
+			// receiver is chain[0]
+			if !p.DependsOn(recv, func(v ssa.Value) bool { return an.IsParam(v, 0) }) {
+				okSelf, detSelf = false, "CheckSignature is not called on the presented certificate"
+			}
+		}
+		c.Require(okSelf, "PROVENANCE", "p2ptls.PubKeyFromCertChain checks the presented certificate's signature with its own key", pk, "", 1, "cert.CheckSignature(cert.SignatureAlgorithm, cert.RawTBSCertificate, cert.Signature)", detSelf)
 		c.Sites(len(vcalls))
 		c.Require(ok, "PROVENANCE", "p2ptls.PubKeyFromCertChain verifies prefix‖PKIX(cert key) with the extension's key", pk, "", len(vcalls), "receiver, message and signature operands have the expected provenance", det)
 		c.EachReturn("PROVENANCE", "p2ptls.PubKeyFromCertChain returns the verified key", pk, "success returns yield the key that Verify was called on", func(s *an.State, ret *ssa.Return) string {
@@ -277,7 +300,7 @@ func isAllocOf(v ssa.Value, typeName string) bool {
 
 func init() {
 	register(&Def{ID: "C03", Run: func(c *an.Check) { loadConst(c, "crypto/tls", "certificatePrefix"); c03(c) },
-		Explain:     "Decides on SSA: (R1) PubKeyFromCertChain reaches its success return only past {one certificate, key extension found, x509 self-verification, asn1 decode, key parse, PKIX encode, signature err==nil, valid==true}; the verified message is certificatePrefix‖PKIX(chain[0].PublicKey) under the key parsed from the extension, which is the key returned; GenerateSignedExtension signs the same construction (MIRROR); the VerifyPeerCertificate closure of ConfigForPeer accepts / publishes the key only past PubKeyFromCertChain ok and (remote==\"\" or remote.MatchesPublicKey(key)); ConfigForPeer always installs that closure; (WHO) InsecureSkipVerify is set on a tls.Config only in NewIdentity and Identity.config is used only by NewIdentity/ConfigForPeer; quic.Link.remotePeerID is written only in NewLink from DetermineSessionIdentity(sess) = IDFromPublicKey(PubKeyFromCertChain(TLS peer certificates)).",
+		Explain:     "Decides on SSA: (R1) PubKeyFromCertChain reaches its success return only past {one certificate, key extension found, x509 Verify, CheckSignature of the certificate over its own TBS bytes with its own key (self-signature; x509.Verify alone skips the signature of a certificate that is its own root), asn1 decode, key parse, PKIX encode, signature err==nil, valid==true}; the verified message is certificatePrefix‖PKIX(chain[0].PublicKey) under the key parsed from the extension, which is the key returned; GenerateSignedExtension signs the same construction (MIRROR); the VerifyPeerCertificate closure of ConfigForPeer accepts / publishes the key only past PubKeyFromCertChain ok and (remote==\"\" or remote.MatchesPublicKey(key)); ConfigForPeer always installs that closure; (WHO) InsecureSkipVerify is set on a tls.Config only in NewIdentity and Identity.config is used only by NewIdentity/ConfigForPeer; quic.Link.remotePeerID is written only in NewLink from DetermineSessionIdentity(sess) = IDFromPublicKey(PubKeyFromCertChain(TLS peer certificates)).",
 		NotCov:      "x509/TLS/QUIC library behaviour and the value-level claim about forged or re-signed extensions are trusted/not decided.",
 		Assumptions: commonAssumptions})
 }
